@@ -37,6 +37,8 @@ func runC14(c *Ctx, r *Report) {
 	c14DNSNameCase(c, r, "C14.R19")
 	c14ListsProvisioned(c, r, "C14.R20")
 	c14KeyDirection(c, r, "C14.R21")
+	c14SingleAddressPrefix(c, r, "C14.R23")
+	defer c15TablesFor(c, r, "C14.R22", "l4dns.(*MatchDNS)") // the rules in force are the rules written: every argument of an allow/deny option of the Caddyfile lands in the field of its own
 	c14Siblings(c, r, "C14.R9")
 	c14Transport(c, r, "C14.R10")
 	c14Headers(c, r, "C14.R11")
